@@ -231,12 +231,20 @@ def viewPure (p : Pickled) : Except Err View :=
   | .error e => .error e
   | .ok (_, rs) => .ok { nan := p.nan, segs := rs }
 
+/-- `_compute_args` with `_keep_model_parameters()` (after "fix: ... restore the parameters of the shared
+    model"): the segment snapshots are applied one after the other and, when done, the model gets back the
+    raw parameters it had before -/
+def viewKeep (nan : Bool) (c : Content) (segs : List Seg) : Except Err (Content × List ArgRows) :=
+  match viewSegs nan c segs with
+  | .error e => .error e
+  | .ok (c', rs) => .ok ({ c' with pars := c.pars }, rs)
+
 /-- `_compute_args` on a heap object: reads AND WRITES the referenced model -/
 def viewSim (h : Heap) (s : Sim) : Except Err (Heap × View) :=
   match h.read s.cell with
   | .error e => .error e
   | .ok c =>
-    match viewSegs s.nan c s.segs with
+    match viewKeep s.nan c s.segs with
     | .error e => .error e
     | .ok (c', rs) => .ok (h.set s.cell c', { nan := s.nan, segs := rs })
 
